@@ -218,7 +218,7 @@ fn c01_q_spsc_recv_timeout_vs_send() {
 /// send_batch of two into a full cap-1 channel; two receives land anywhere: completes with Ok(2), order kept.
 #[kani::proof]
 #[kani::unwind(5)]
-fn c05_t_spsc_send_batch_vs_recvs() {
+fn c05_x_spsc_send_batch_vs_recvs() {
   setup!(1, 1, tx, rx);
   sched::install(a_recv, 2, 1);
   sched::set_stuck_is_bug(true);
